@@ -583,7 +583,10 @@ class Frag:
         link = dict(env["#link"])
         link.pop(name, None)
         if "#pending" in link:
-            link[name] = link.pop("#pending")
+            pend = link.pop("#pending")
+            if any(st == pend[0] for st, _ in link.values()):
+                raise Untranslatable(f"{name}: a second variable would alias an object of {pend[0]}")
+            link[name] = pend
         env["#link"] = link
         env[name] = val
         return env
@@ -692,6 +695,8 @@ class Frag:
             v = self.expr(value, env)
             if v.none:
                 return self.stmts(rest, self.bind_local(tgt.id, v, env), k)
+            if v.ty in MSG_READ:
+                raise Untranslatable(f"{text}: second name for a message object (aliasing is not tracked)")
             env = self.bind_local(tgt.id, v, env)
             nm = self.fresh(tgt.id.lstrip("_"), env)
             env[tgt.id] = Val(nm, v.ty)
@@ -728,6 +733,8 @@ class Frag:
             nm = self.fresh(STATE_INFO_REV[store], env)
             env[store] = Val(nm, st.ty)
             link = dict(env["#link"])
+            if any(st_ == store for v_, (st_, _) in link.items() if v_ != value.id):
+                raise Untranslatable(f"{text}: a second variable would alias an object of {store}")
             link[value.id] = (store, key)
             env["#link"] = link
             return f"let {nm} := {setter} {key} {env[value.id].text} {st.text} in\n" + self.stmts(rest, env, k)
@@ -786,7 +793,7 @@ class Frag:
         if env["#link"]:
             raise Untranslatable("loop while a variable aliases a stored object")
         var = s.target.id
-        if var in env:
+        if var in env or var in ("r", "st", "ret", "l"):
             raise Untranslatable(f"loop variable {var} shadows another name")
         assigned = set()
         for n in ast.walk(s):
